@@ -464,6 +464,11 @@ type faultPlan struct {
 	CancelAtStart  int64
 	CancelAtReturn int64
 	Cancel         context.CancelFunc
+	// FailOp / FailOpNth: fail the n-th call of this operation kind (Get, Exists,
+	// TravExp, TravRew) instead of the FailAt-th call overall (n >= 1)
+	FailOp    string
+	FailOpNth int64
+	opSeen    int64
 }
 
 type instrStore struct {
@@ -565,6 +570,13 @@ func (s *instrStore) enter(ctx context.Context, op, arg string) (int64, error) {
 		if p.FailAt > 0 && (k == p.FailAt || (p.Persistent && k > p.FailAt)) {
 			ferr = p.Err
 			s.faulted++
+		}
+		if p.FailOp != "" && op == p.FailOp {
+			p.opSeen++
+			if p.opSeen == p.FailOpNth || (p.Persistent && p.opSeen > p.FailOpNth) {
+				ferr = p.Err
+				s.faulted++
+			}
 		}
 	}
 	pf := s.perturb
